@@ -75,8 +75,9 @@ theorem failed_trackerDone_false (c : Cfg) (s : St) (i : Nat) : failed c (tracke
 /-- second summary of a `recv`: loop invariant, contexts and the cause of a return. -/
 def OutcomeB (c : Cfg) (t : St) (i : Nat) (r : Res) : Prop :=
   (t.main = .running ∧ succeeded c t = false ∧ failed c t = false) ∨
-  (∃ e, t.main = .retErr e ∧ e ≠ .invalid ∧ (∀ j, t.ctx j = true) ∧
-      (failed c t = true ∨ (c.hasTerm = true ∧ r = .term ∧ e = .inst i))) ∨
+  (∃ e, t.main = .retErr e ∧ e ≠ .invalid ∧ (∀ j, t.ctx j = true) ∧ e = errKind i r ∧
+      ((failed c t = true ∧ t.doneErr.getLast? = some i) ∨
+       (c.hasTerm = true ∧ (r = .term ∨ (r = .aborted ∧ t.abT i = true))))) ∨
   (t.main = .retOk ((List.range c.n).filter (kept c t)) ∧ succeeded c t = true ∧
       ∀ j, j < c.n → kept c t j = false → t.ctx j = true)
 
@@ -113,7 +114,7 @@ theorem recvErr_B (c : Cfg) (s1 : St) (i : Nat) (r : Res) (hm : s1.main = .runni
   split
   · rename_i hfl
     right; left
-    exact ⟨errKind i r, rfl, errKind_ne_invalid i r, fun _ => rfl, Or.inl ((failed_congr c rfl rfl).trans hfl)⟩
+    exact ⟨errKind i r, rfl, errKind_ne_invalid i r, fun _ => rfl, rfl, Or.inl ⟨(failed_congr c rfl rfl).trans hfl, by simp⟩⟩
   · rename_i hfl
     simp only [Bool.not_eq_true] at hfl
     exact loopHead_B c _ i r hm hfl
@@ -124,9 +125,9 @@ theorem recvStep_B (c : Cfg) (s : St) (i : Nat) (r : Res) (rest : List (Nat × R
   simp only []
   split
   · rename_i ht
-    simp only [Bool.and_eq_true, decide_eq_true_eq] at ht
+    simp only [isTerminal, Bool.and_eq_true, Bool.or_eq_true, decide_eq_true_eq] at ht
     right; left
-    exact ⟨.inst i, rfl, by simp, fun _ => rfl, Or.inr ⟨ht.1, ht.2, rfl⟩⟩
+    exact ⟨errKind i r, rfl, errKind_ne_invalid i r, fun _ => rfl, rfl, Or.inr ⟨ht.1, ht.2⟩⟩
   · split
     · apply recvOk_B
       · simpa using hm
